@@ -907,6 +907,7 @@ func c01pump(c *an.Ctx) {
 
 func c01scan(c *an.Ctx) {
 	put := c.Fn("nsqd", "(*Channel).put")
+	scanPW := &putWrappers{put: put, exiting: c.P.Func("nsqd", "(*Channel).Exiting"), memo: map[*ssa.Function]bool{}}
 	if put == nil {
 		return
 	}
@@ -951,7 +952,13 @@ func c01scan(c *an.Ctx) {
 				CutEdge:  func(e an.Edge, _ *an.PathState) bool { return an.EdgeIn(e, popFail) },
 				Cut: func(in ssa.Instruction, st *an.PathState) bool {
 					ci, ok := in.(ssa.CallInstruction)
-					return ok && an.IsCallTo(ci, put) && st.Has(arg(ci, 0)) && an.SameValue(recvArg(ci), fn.Params[0])
+					if !ok {
+						return false
+					}
+					if an.IsCallTo(ci, put) && st.Has(arg(ci, 0)) && an.SameValue(recvArg(ci), fn.Params[0]) {
+						return true
+					}
+					return scanPW.is(ci, st, fn)
 				}}
 			w, f := q.Find()
 			if f {
@@ -1071,6 +1078,7 @@ func c01req(c *an.Ctx) {
 					exitingEdges = append(exitingEdges, t.True)
 				}
 			}
+			pw := &putWrappers{put: put, startDef: startDef, exiting: exiting, memo: map[*ssa.Function]bool{}}
 			q := &an.PathQ{Fn: fn, StartEdges: edges, Tracked: tracked, Sink: an.IsReturn,
 				CutEdge: func(e an.Edge, _ *an.PathState) bool { return an.EdgeIn(e, exitingEdges) },
 				Cut: func(in ssa.Instruction, st *an.PathState) bool {
@@ -1078,7 +1086,10 @@ func c01req(c *an.Ctx) {
 					if !ok {
 						return false
 					}
-					return (an.IsCallTo(ci, put) || an.IsCallTo(ci, startDef)) && st.Has(arg(ci, 0))
+					if (an.IsCallTo(ci, put) || an.IsCallTo(ci, startDef)) && st.Has(arg(ci, 0)) {
+						return true
+					}
+					return pw.is(ci, st, fn)
 				}}
 			w, f := q.Find()
 			if f {
@@ -1202,3 +1213,46 @@ func itemOfParam(v ssa.Value, fn *ssa.Function) bool {
 }
 
 var _ = token.NoPos
+
+// putWrappers recognises methods that, like PutMessage, queue their message argument (put or
+// StartDeferredTimeout of it) on every path except the channel-exiting arm.
+type putWrappers struct {
+	put, startDef, exiting *ssa.Function
+	memo                   map[*ssa.Function]bool
+}
+
+func (pw *putWrappers) wraps(h *ssa.Function) bool {
+	if h == nil || len(h.Blocks) == 0 || len(h.Params) < 2 {
+		return false
+	}
+	if v, ok := pw.memo[h]; ok {
+		return v
+	}
+	pw.memo[h] = false
+	var hExit []an.Edge
+	if pw.exiting != nil {
+		for _, ec := range an.CallsTo(h, pw.exiting) {
+			for _, t := range an.BoolTests(ec.Value()) {
+				hExit = append(hExit, t.True)
+			}
+		}
+	}
+	hq := &an.PathQ{Fn: h, StartEntry: true, Tracked: []ssa.Value{h.Params[1]}, Sink: an.IsReturn,
+		CutEdge: func(e an.Edge, _ *an.PathState) bool { return an.EdgeIn(e, hExit) },
+		Cut: func(in ssa.Instruction, st *an.PathState) bool {
+			ci, ok := in.(ssa.CallInstruction)
+			return ok && (an.IsCallTo(ci, pw.put) || (pw.startDef != nil && an.IsCallTo(ci, pw.startDef))) && st.Has(arg(ci, 0))
+		}}
+	_, miss := hq.Find()
+	pw.memo[h] = !miss
+	return !miss
+}
+
+// is: ci calls such a wrapper on fn's own receiver with a tracked message.
+func (pw *putWrappers) is(ci ssa.CallInstruction, st *an.PathState, fn *ssa.Function) bool {
+	h := an.StaticCallee(ci)
+	if h == nil || h == fn || h.Signature.Recv() == nil || len(ci.Common().Args) < 2 {
+		return false
+	}
+	return st.Has(arg(ci, 0)) && an.SameValue(recvArg(ci), fn.Params[0]) && pw.wraps(h)
+}
